@@ -2,6 +2,7 @@
 From Coq Require Import List String ZArith Bool.
 From GG Require Import Base.Strs Model.Config Model.GoTypes Model.GoAst Model.Annots Model.Analyze Exec
                        Proofs.WalkProofs Proofs.CheckerProofs Properties.C01.
+From GG Require Proofs.DiagProofs Proofs.WholeProofs.
 Import ListNotations.
 Local Open Scope Z_scope.
 Local Open Scope string_scope.
@@ -96,6 +97,19 @@ Example C04_nonvacuous :
   run "x/u" "u" = [(40, "PKGO02")] /\ run "x/k" "ok" = [] /\ run "x/bypath" "other" = [] /\ run "x/d" "d" = [].
 Proof. vm_compute. repeat split; reflexivity. Qed.
 
+(* END TO END: in the result of the whole per-package analysis the diagnostics with a PKGO code are exactly the output of this
+   checker under the facts (own annotations, then those of the direct imports) and the suppression (the package's @ignore
+   comments, exclude-checks) that the analysis assembles itself; the theorems above characterise that output *)
+Theorem C04_whole_analysis :
+  forall cfg p all own ds, x_analyze cfg p all = AOk own ds ->
+    exists ops, x_ignore_ops cfg p = Some ops /\ own = x_read_all cfg p /\
+      forall d, In (d_code d) DiagProofs.PKGO_CODES -> (In d ds <-> In d (x_pkgo cfg p (x_facts p own all) (x_suppressed ops))).
+Proof.
+  intros cfg p all own ds Hres.
+  destruct (WholeProofs.section_of_code cfg p all own ds Hres) as (ops & Ho & Hown & Hsec). exists ops. split; [exact Ho|]. split; [exact Hown|].
+  intros d Hc. destruct (Hsec d) as (_ & _ & _ & _ & Hx). apply Hx. exact Hc.
+Qed.
+
 Print Assumptions C04_union.
 Print Assumptions C04_function_candidate.
 Print Assumptions C04_type_candidate.
@@ -104,3 +118,4 @@ Print Assumptions C04_candidate_nodes.
 Print Assumptions C04_denied.
 Print Assumptions C04_file.
 Print Assumptions C04_own_package_never.
+Print Assumptions C04_whole_analysis.
